@@ -55,6 +55,30 @@ func c10Trace(g *gen.FG, side string, r *fw.Rand) *c10Side {
 				p.Extra = append(p.Extra, &gen.Spec{Tag: "RESI", Kids: []*gen.Spec{{Tag: "DATE", Value: fmt.Sprint(1500 + i*7 + k)}, {Tag: "NOTE", Value: m}}})
 			}
 		}
+		// Details below a fact that both documents may have in common: the same
+		// occupation line (bare on one side, detailed on the other, or both),
+		// and a death that one side only knows as "1 DEAT" while the other has
+		// a date, a place and a note. A merged individual must keep the details
+		// whichever side is the bare one.
+		if r.Chance(1, 2) {
+			occ := &gen.Spec{Tag: "OCCU", Value: "worker " + p.Given}
+			if r.Bool() {
+				m := fmt.Sprintf("fact-%s-occu", p.Tracer)
+				s.facts[p.Tracer] = append(s.facts[p.Tracer], m)
+				occ.Kids = []*gen.Spec{{Tag: "NOTE", Value: m}}
+			}
+			p.Extra = append(p.Extra, occ)
+		}
+		if p.Ev("DEAT") != nil {
+			switch r.Intn(4) {
+			case 0:
+				p.BareEv = map[string]bool{"DEAT": true}
+			case 1:
+				m := fmt.Sprintf("fact-%s-deat", p.Tracer)
+				s.facts[p.Tracer] = append(s.facts[p.Tracer], m)
+				p.Sub = map[string][]*gen.Spec{"DEAT": {{Tag: "NOTE", Value: m}}}
+			}
+		}
 	}
 	for i, f := range g.Families {
 		tr := fmt.Sprintf("%sF%02d", side, i)
@@ -99,6 +123,7 @@ func c10EditedCopy(r *fw.Rand, g *gen.FG, renumber bool, drop bool) *gen.FG {
 		q := *p
 		q.Idx = len(c.People)
 		q.Extra = nil
+		q.Sub, q.BareEv = nil, nil
 		q.Tracer = ""
 		q.Events = nil
 		for _, e := range p.Events {
@@ -149,7 +174,7 @@ func c10N(tier string) int {
 	if tier == "thorough" {
 		return 120000
 	}
-	return 600
+	return 4000
 }
 
 var c10Scenarios = []string{"same-pointers", "renumbered", "disjoint", "clashing-pointers", "empty-side", "same-pointers-dropped-added", "shared-unique-id", "unique-id-under-rotated-pointers"}
@@ -161,7 +186,7 @@ func init() {
 		NeedsCLI: true,
 		Cases:    func(tier string, seed uint64) int { return c10N(tier) },
 		Run:      c10Run,
-		Rule: "pairs of referentially closed family-graph documents in which every record carries a unique tracer (_TRC) and every fact a unique marker: base + edited copy with the same pointers, with renumbered pointers, with dropped/added people; disjoint documents; different people under clashing pointers; an empty side; two left people sharing a unique id with one right person. Default, strict (0.95) and lenient (0.3) thresholds x PreferPointerAbove {0, default, 1}; through gedcom.MergeDocumentsAndIndividuals, through the query function printed by the gedcom formatter, and (every 10th case) through the built CLI. " +
+		Rule: "pairs of referentially closed family-graph documents in which every record carries a unique tracer (_TRC) and every fact a unique marker (new facts, and details below facts both sides have in common: the same OCCU line or a DEAT that is bare on one side and detailed on the other): base + edited copy with the same pointers, with renumbered pointers, with dropped/added people; disjoint documents; different people under clashing pointers; an empty side; two left people sharing a unique id with one right person. Default, strict (0.95) and lenient (0.3) thresholds x PreferPointerAbove {0, default, 1}; through gedcom.MergeDocumentsAndIndividuals, through the query function printed by the gedcom formatter, and (every 10th case) through the built CLI. " +
 			"checks on a fresh decode of the output text: every input tracer in exactly one output individual, at most one left and one right tracer per output individual, every fact marker of its originals present, and every input reference (family->person, person->family) resolves to the record carrying the tracer it meant. non-trivial = a pair merged under different pointers or a family referencing a merged person; distinct by text of the pair",
 		Floors: func(a *fw.Agg, tier string) []string {
 			var f []string
